@@ -19,6 +19,12 @@ CHECKS['C09'] = ('fault_enumeration', 'exhaustive fault injection (cancel at eve
     'request/enter/leave records must agree on every entry, every `available` probe and on the lock being free at the end.',
     'Trusts the lock model and the log bracketing of the DSL interpreter; one lock, <= 3 contenders, <= 2 injected faults.',
     'DESIGN.md section 3 C09')
+CHECKS['C10'] = ('fault_enumeration', 'exhaustive fault injection (cancel at every activation boundary, swept until-interrupt/close, swept close moment) into enumerated producer/consumer programs on the real Queue vs. a list model',
+    'All programs of 1-2 producers and 1-3 consumers (single gets, iteration) on one Queue, closed at a chosen or swept moment and finally drained, are executed '
+    'fault-free and with one injected cancel / until-interrupt / forceful close at every boundary resp. queue position of every participant; a list model demands '
+    'exactly-once delivery, put order, waiter order, timely delivery and the close semantics on every execution.',
+    'Trusts the list-model oracle and the DSL log; one queue, <= 2x2 items, <= 3 consumers, one injected fault.',
+    'DESIGN.md section 3 C10')
 PENDING = {}
 
 def main():
